@@ -110,16 +110,23 @@ class _Capture(MustFlow):
         return state
 
 
-def capture_receivers(fi):
+def capture_receivers(fi, repo=None):
     calls = {}
     alias = _alias_map(fi)
+    fresh = set()
+    for n in walk_no_nested(fi.node):
+        # a model constructed inside the function needs no reset
+        if isinstance(n, ast.Assign) and isinstance(n.value, ast.Call) and isinstance(n.value.func, ast.Name) \
+                and n.value.func.id[:1].isupper():
+            for t in n.targets:
+                fresh.add(ntext(t))
     for n in walk_no_nested(fi.node):
         if isinstance(n, ast.Call) and isinstance(n.func, ast.Attribute) and \
                 n.func.attr in ('reset', 'st', 'do_math'):
             t = ntext(n.func.value)
             t = alias.get(t, t)
             calls.setdefault(t, set()).add(n.func.attr)
-    return [r for r, ms in calls.items() if ms == {'reset', 'st', 'do_math'}]
+    return [r for r, ms in calls.items() if {'st', 'do_math'} <= ms and r not in fresh]
 
 
 def _kw(call, name, pos=None):
